@@ -94,6 +94,26 @@ def build_case(case):
     elif kind == "patterns":
         for slot in case["slots"]:
             p.attach_pattern(make_pattern(slot))
+    elif kind == "metamodules":
+        # several MetaModules with DIFFERENT user-controller counts in one project (and, before it, a
+        # throw-away project saved with the first count only): per-instance state such as the number
+        # of exposed controllers must not be remembered per class / per process
+        from rv.cmidmap import MidiMessageType
+
+        warm = rv.Project()
+        warm.new_module(rv.m.MetaModule).user_defined_controllers = case["counts"][0]
+        warm.read()
+        for n in case["counts"]:
+            mm = p.new_module(rv.m.MetaModule)
+            mm.project.new_module(rv.m.Amplifier)
+            mm.user_defined_controllers = n
+            if n:
+                mm.mappings.values[n - 1].module, mm.mappings.values[n - 1].controller = 1, 0
+                mm.update_user_defined_controllers()
+                mm.set_raw(f"user_defined_{n}", 77)
+                cm = mm.controller_midi_maps[f"user_defined_{n}"]
+                cm.message_type, cm.channel, cm.message_parameter = MidiMessageType.control_change, 3, 11
+                mm.user_defined[n - 1].label = f"last{n}"
     else:
         raise ValueError(kind)
     return p
@@ -206,6 +226,8 @@ def all_cases(ctx):
         for s in name_alphabet() + ["", "Project", "näme", "a" * 200]:
             cases.append({"kind": "name", "which": which, "s": s})
     cases += pattern_cases(ctx.thorough)
+    for counts in ([2, 5], [5, 2], [0, 96], [96, 0], [1, 2, 3], [3, 3]):
+        cases.append({"kind": "metamodules", "counts": counts})
     return cases
 
 
